@@ -142,14 +142,23 @@ impl FunctionCompiler<'_> {
         Ok(match self.world_bodies[loc.file()][expr].clone() {
             hir::Expr::Missing => unreachable!(),
             hir::Expr::IntLiteral(n) => {
-                match (
-                    self.tys[loc.wrap()][expr]
-                        .get_final_ty()
-                        .into_number_type()
-                        .unwrap()
-                        .bit_width(),
-                    self.module.isa().endianness(),
-                ) {
+                let num_ty = self.tys[loc.wrap()][expr]
+                    .get_final_ty()
+                    .into_number_type()
+                    .unwrap();
+
+                // `G : f64 : 3;` is an integer literal with a float type
+                if num_ty.float {
+                    return Ok(match (num_ty.bit_width(), self.module.isa().endianness()) {
+                        (32, Endianness::Little) => Box::new((n as f32).to_le_bytes()),
+                        (32, Endianness::Big) => Box::new((n as f32).to_be_bytes()),
+                        (64, Endianness::Little) => Box::new((n as f64).to_le_bytes()),
+                        (64, Endianness::Big) => Box::new((n as f64).to_be_bytes()),
+                        _ => unreachable!(),
+                    });
+                }
+
+                match (num_ty.bit_width(), self.module.isa().endianness()) {
                     (8, Endianness::Little) => Box::new((n as u8).to_le_bytes()),
                     (8, Endianness::Big) => Box::new((n as u8).to_be_bytes()),
                     (16, Endianness::Little) => Box::new((n as u16).to_le_bytes()),
